@@ -99,6 +99,10 @@ def run(c):
         raised = None
     except (ValueError, AssertionError) as e:      # how a wrong-length output is rejected is not part of the property
         raised = e
+    except (TypeError, RuntimeError) as e:
+        if c['din'] == 'list' and n == 0:
+            return dict(problems=[], evals=0)      # numba cannot type an empty Python list
+        raise
     except (IndexError, SystemError) as e:
         probs.append(dict(sig=sigbase + ':oob', msg=f'out-of-bounds access: {type(e).__name__}: {e}'))
         raised = e
@@ -117,7 +121,8 @@ def run(c):
             probs.append(dict(sig=sigbase + ':wronglen-wrote', msg='rejected output was written to'))
     else:
         if raised is not None:
-            probs.append(dict(sig=sigbase + ':rejected', msg=f'right-length output rejected: {raised}'))
+            if not (c['din'] == 'list' and n == 0):      # an empty Python list cannot be typed by numba, however cumsum is layered
+                probs.append(dict(sig=sigbase + ':rejected', msg=f'right-length output rejected: {raised}'))
         else:
             if not np.array_equal(out, sel):
                 probs.append(dict(sig=sigbase + ':values', msg=f'out={out.tolist()} expected={sel.tolist()}'))
